@@ -304,7 +304,8 @@ def tie_multi(ck, model):
                 except Infra:
                     raise
                 except Exception as e:  # noqa  - set-up refused by the real objects, or a thread blocks outside the doubles
-                    ck.fail("several-threads-%s" % ("block-outside-locks" if isinstance(e, S.OutsideBlock) else "setup-raises-" + exc_name(e)),
+                    ck.fail("terminate-blocks" if (isinstance(e, S.SetupBlocks) and st["pre"]) else
+                            "several-threads-%s" % ("block-outside-locks" if isinstance(e, S.OutsideBlock) else "setup-raises-" + exc_name(e)),
                             "threads %s on a %s socket in state %s, link script %s: %s" % (calls, st["k"], st["st"], script, e),
                             {"state": st, "calls": calls, "link_script": script, "decisions": list(prefix), "exception": repr(e)})
                     return []
@@ -350,6 +351,15 @@ def run_part(ck):
     ck.rule += (" | part multi: (socket state, 2..4 calls of different threads on that socket, script of link events ending in "
                 "terminate, schedule = list of thread indices); schedules enumerated depth first up to %d preemption(s), all "
                 "orders among woken threads; non-trivial = at least two threads passed a wait" % (2 if ck.thorough else 1))
+    ck.assumptions += [
+        "part multi: threading.Condition wakes waiters in arrival order (notify(n): the n longest waiting; CPython's implementation), "
+        "the link thread's events Q/A/D of the several-threads tie are applied to the socket directly, and only while it is registered "
+        "in its service access point (as dispatch()/collect() reach it); terminate() is one atomic step of the link thread there "
+        "(its interleaving with bind() is the terminate-steps tie), in the service/application exploration it is the real run loop "
+        "with scheduling points at its lock acquisitions and at every MAC exchange",
+    ]
+    ck.trusted += ["hand-written Lean model NfcVerif.Model.TermMulti, tied by differential runs under harness/sims/term_sched.py "
+                   "(lock / Condition / Thread doubles, deterministic scheduler)", "harness/props/c09_multi.py"]
     import time
     from props.c09 import guarded
     from sims import term_sched as S
